@@ -343,6 +343,15 @@ def reported_log_flags(opt):
 
 def step(w, s, op):
     """Apply op to the real world and to the reference.  Returns (real_exc, ref_exc, written)."""
+    if op[0] == 'set_mode' and op[2] != op[2].lower() and op[2].lower() in ('linear', 'log') and op[1] in s.p:
+        # a differently capitalised spelling of a legal mode: the statement does not say whether it is legal, so it
+        # may be rejected (an error, nothing changed) or mean its lower-case form - nothing else
+        try:
+            apply_real(w, op, s.nfit())
+        except Exception as e:
+            return e, ref.RefError('spelling rejected'), []
+        apply_ref(s, [op[0], op[1], op[2].lower()])
+        return None, None, []
     flags = None
     if op[0] == 'update_model':
         flags = reported_log_flags(w[2])
@@ -623,7 +632,7 @@ def hist_fn(case):
 # ----------------------------------------------------------------------------------------------
 # alphabets and exploration
 # ----------------------------------------------------------------------------------------------
-def alphabet(params, derived, priors=('U', 'LU', 'G'), errors='few', updates=('v1', 'v2')):
+def alphabet(params, derived, priors=('U', 'LU', 'G'), errors='few', updates=('v1', 'v2'), spelled=False):
     ops = []
     for p in params:
         ops += [['enable_fit', p], ['disable_fit', p], ['set_mode', p, 'linear'], ['set_mode', p, 'log'],
@@ -635,6 +644,8 @@ def alphabet(params, derived, priors=('U', 'LU', 'G'), errors='few', updates=('v
     ops += [['update_model', v] for v in updates]
     if errors:
         ops += [['enable_fit', 'nope'], ['set_prior', 'nope', 'U'], ['update_model', 'badlen']]
+    if spelled:
+        ops += [['set_mode', p, m] for p in params for m in ('Log', 'LINEAR')]
     if errors == 'all':
         ops += [['disable_fit', 'nope'], ['set_mode', 'nope', 'log'], ['set_boundary', 'nope', 'b1'],
                 ['set_factor_boundary', 'nope', 'f1'], ['enable_derived', 'nope'], ['disable_derived', 'nope'],
@@ -679,6 +690,9 @@ def explore(ctx):
         run_phase(ctx, 'all', alphabet(QUICK_PARAMS, DERIVED, priors=('U', 'LU'), errors='few', updates=('v1',)), 3)
         # two parameters (default-fit linear + log, the pair of the design prototype), depth 4
         run_phase(ctx, 'pair', alphabet(['planet_radius', 'H2O'], [], errors=None, updates=('v1',)), 4)
+        # differently capitalised mode names next to the plain ones
+        run_phase(ctx, 'spelling', alphabet(['planet_radius', 'H2O'], [], priors=(), errors=None, updates=('v1',),
+                                            spelled=True), 3)
         # start from non-initial states: two presets, every operation, depth 2
         run_phase(ctx, 'preset', alphabet(QUICK_PARAMS, DERIVED, priors=('U', 'LU', 'G'), errors='few'), 2,
                   roots=PRESETS)
@@ -687,6 +701,8 @@ def explore(ctx):
         # (this contains every depth-2 state of the full alphabet as the start of a depth-2 search)
         run_phase(ctx, 'all', alphabet(PARAMS, DERIVED, priors=('U', 'LU', 'G', 'LG'), errors='all'), 4)
         run_phase(ctx, 'pair', alphabet(['planet_radius', 'H2O'], [], errors=None), 6)
+        run_phase(ctx, 'spelling', alphabet(['planet_radius', 'H2O', 'obs_scale'], [], priors=('U',), errors=None,
+                                            updates=('v1',), spelled=True), 4)
         run_phase(ctx, 'pair-obs', alphabet(['T', 'obs_scale'], ['obs_d'], errors=None, updates=('v1',)), 5)
         run_phase(ctx, 'preset', alphabet(PARAMS, DERIVED, priors=('U', 'LU', 'G', 'LG'), errors='few'), 3,
                   roots=PRESETS)
